@@ -132,6 +132,7 @@ func (p expCache) State() (int, int, bool, int, int) {
 // ---------------------------------------------------------------------------
 
 type callRec struct {
+	created []int    // ids of the values created during the call
 	loads   []string // keys passed to the create function during the call
 	deletes []string // "key=id" passed to the delete callback during the call
 }
@@ -160,6 +161,7 @@ const (
 )
 
 type world struct {
+	invN    int
 	keyBuf  map[string]*mkey
 	curOp   string
 	delInCR int
@@ -243,6 +245,7 @@ func (w *world) load(k string) (*item, time.Duration, error) {
 		it = &item{id: w.nextID, key: k}
 		w.created[it.id] = k
 		w.createdBy[it.id] = zsimrt.CurrentName()
+		w.rec().created = append(w.rec().created, it.id)
 	}
 	if conc {
 		zsimrt.Yield("loader:exit")
@@ -418,8 +421,14 @@ func (w *world) doOpPanicky(name string, op sim.Op) {
 		}()
 		switch op.K {
 		case "get":
-			if _, err := w.cache.Get(op.S); err != nil && !errors.Is(err, errLoader) {
+			id, err := w.cache.Get(op.S)
+			if err != nil && !errors.Is(err, errLoader) {
 				e.Violate(w.prop(), "unexpected_error", "GetOrCreate(%q) returned %v", op.S, err)
+			}
+			if err == nil && w.deleted[id] > 0 {
+				// "the delete callback runs ... never for a resident one": a value the callback has
+				// been given (whether or not the callback returned normally) has left the cache
+				e.Violate(w.delProp(), "deleted_value_returned", "GetOrCreate(%q) returned value #%d, which had already been passed to the delete callback: the callback ran for an entry that stayed resident", op.S, id)
 			}
 		case "remove":
 			w.cache.Remove(op.S)
@@ -462,7 +471,14 @@ func (w *world) doOp(idx int, name string, op sim.Op) {
 		return
 	case "get":
 		now := time.Now()
-		id, err := w.cache.Get(op.S)
+		var id int
+		var err error
+		if op.F {
+			// bulk filling (big populations): plain calls, no scheduling points inside
+			zsimrt.Unchecked(func() { id, err = w.cache.Get(op.S) })
+		} else {
+			id, err = w.cache.Get(op.S)
+		}
 		switch {
 		case err != nil && errors.Is(err, errLoader):
 			out = lruOut{res: "failed"}
@@ -496,11 +512,9 @@ func (w *world) doOp(idx int, name string, op sim.Op) {
 		}
 	}
 	ret := e.Stamp()
-	for id, by := range w.createdBy {
-		if by == name {
-			if _, done := w.retStamp[id]; !done {
-				w.retStamp[id] = ret
-			}
+	for _, id := range r.created {
+		if _, done := w.retStamp[id]; !done {
+			w.retStamp[id] = ret
 		}
 	}
 	if op.K == "clear" && w.mode == "conc" {
@@ -559,6 +573,13 @@ func (w *world) checkNodes(when string) {
 func (w *world) Invariant(e *sim.Env) {
 	if w.cache == nil || w.mode != "conc" {
 		return
+	}
+	if w.c.Knob("big", 0) == 1 {
+		// thousands of entries: walking the list between any two steps would dominate the run
+		w.invN++
+		if w.invN%8192 != 0 {
+			return
+		}
 	}
 	w.checkNodes("between steps, cache lock free")
 }
@@ -703,7 +724,7 @@ func (w *world) linStep(st linState, in linIn, out lruOut) (bool, linState) {
 }
 
 func (w *world) Post(res *sim.Result) {
-	if w.mode != "conc" || len(res.Violations) > 0 || res.HarnessError != "" || res.Inconclusive != "" || w.flavor == 2 {
+	if w.mode != "conc" || len(res.Violations) > 0 || res.HarnessError != "" || res.Inconclusive != "" || w.flavor == 2 || w.c.Knob("big", 0) == 1 {
 		return
 	}
 	model := porcupine.Model{
